@@ -192,16 +192,41 @@ class _List(ir.RpmList):
         self.packages = {"p": pkgs}
 
 
+class SubRpm(ir.InstalledRpm):
+    """a subclass of the package class, as the yum / container parsers define them: comparisons are by epoch, version and release, whatever
+    the concrete classes of the two operands"""
+    pass
+
+
+def _mk(cls_flag, f):
+    return (SubRpm if cls_flag else ir.InstalledRpm)({"name": "p", "epoch": f[0], "version": f[1], "release": f[2], "arch": "x"})
+
+
+def sequence_checks(p1, sub2, f1, f2, lt, eq):
+    """one package compared with thresholds built inline, one after the other (the temporaries are gone after each comparison)"""
+    bad = []
+    r1 = bool(p1 < _mk(sub2, f2))
+    r2 = bool(p1 < _mk(sub2, f1))
+    r3 = bool(p1 == _mk(sub2, f1))
+    r4 = bool(p1 == _mk(sub2, f2))
+    r5 = bool(p1 < _mk(sub2, f2))
+    if (r1, r2, r3, r4, r5) != (lt, False, True, eq, lt):
+        bad.append("p < T, p < P, p == P, p == T, p < T with inline thresholds gave %r, expected %r" % ((r1, r2, r3, r4, r5), (lt, False, True, eq, lt)))
+    return bad
+
+
 def make_o5(maxlen, alphabet):
     def o5(en):
-        def pkg(tag):
+        sub1, sub2 = en.flag("subclass1"), en.flag("subclass2")
+
+        def pkg(tag, sub):
             ep = sstr.fresh_str(en, "e" + tag, 1 + en.choice("elen" + tag, 2), "0123456789")
             v = sstr.fresh_str_upto(en, "v" + tag, maxlen, alphabet)
             r = sstr.fresh_str_upto(en, "r" + tag, maxlen, alphabet)
-            return ir.InstalledRpm({"name": "p", "epoch": ep, "version": v, "release": r, "arch": "x"}), (ep, v, r)
-        p1, f1 = pkg("1")
-        p2, f2 = pkg("2")
-        case = lambda mv: {"p1": [mv.str(x) for x in f1], "p2": [mv.str(x) for x in f2]}  # noqa
+            return _mk(sub, (ep, v, r)), (ep, v, r)
+        p1, f1 = pkg("1", sub1)
+        p2, f2 = pkg("2", sub2)
+        case = lambda mv: {"p1": [mv.str(x) for x in f1], "p2": [mv.str(x) for x in f2], "subclass": [sub1, sub2]}  # noqa
         en.note_sample(case)
         rc = rv.rpm_version_compare(p1, p2)
         e1, e2 = sstr.digits_value(cps_of(f1[0])), sstr.digits_value(cps_of(f2[0]))
@@ -217,6 +242,8 @@ def make_o5(maxlen, alphabet):
         mx, mn = lst.get_max("p"), lst.get_min("p")
         okm = not bool(mx < p1) and not bool(mx < p2) and not bool(mn > p1) and not bool(mn > p2)
         en.must_hold(okm, "max-min", case, detail="newest/oldest is not a maximum/minimum")
+        seq = sequence_checks(p1, sub2, f1, f2, lt, eq)
+        en.must_hold(not seq, "operators-agree", case, detail=seq)
     return o5
 
 
@@ -284,8 +311,9 @@ def _check(case):
             bad.append("not reflexive on %r" % (a,))
     else:
         (e1, v1, r1), (e2, v2, r2) = case["p1"], case["p2"]
-        p1 = ir.InstalledRpm({"name": "p", "epoch": e1, "version": v1, "release": r1, "arch": "x"})
-        p2 = ir.InstalledRpm({"name": "p", "epoch": e2, "version": v2, "release": r2, "arch": "x"})
+        sub = case.get("subclass") or [False, False]
+        p1 = _mk(sub[0], (e1, v1, r1))
+        p2 = _mk(sub[1], (e2, v2, r2))
         exp = ref_compare(int(e1), list(map(ord, v1)), list(map(ord, r1)), int(e2), list(map(ord, v2)), list(map(ord, r2)))
         rc = rv.rpm_version_compare(p1, p2)
         if rc != exp:
@@ -299,6 +327,7 @@ def _check(case):
         mx, mn = lst.get_max("p"), lst.get_min("p")
         if mx < p1 or mx < p2 or mn > p1 or mn > p2:
             bad.append("newest/oldest is not a maximum/minimum")
+        bad += sequence_checks(p1, sub[1], (e1, v1, r1), (e2, v2, r2), exp < 0, exp == 0)
     return bad
 
 
